@@ -303,6 +303,10 @@ void HttpMessage::readBody()
 		}
 		byte buffer[RECV_BLOCK_SIZE];
 		int maxToRead = _socket->available(), bytesRead = 0;
+		if (!chunked && maxToRead <= 0) // readable but nothing available: the peer closed before sending the whole body
+			break;
+		if (!chunked && size > 0)
+			maxToRead = min(maxToRead, size); // do not read into the next pipelined message
 		if (chunked)
 		{
 			String chunkSize = _socket->readLine();
